@@ -343,7 +343,7 @@ class ExtModel:
 
     # -------------------------------------------------------------- calling
     def call_extobj(self, interp, st, fn, args, kwargs, node):
-        if fn.cls == "vol.validator":
+        if fn.cls.startswith("vol.") or fn.cls == "refl.validator":
             return self._call_validator(interp, st, fn, args, node)
         interp.emit(st, "call", f"{fn.cls}.__call__", node, recv=fn, args=args)
         return [("val", st, Unknown(label=f"res:{self._site(interp, st, node)}"))]
@@ -412,7 +412,7 @@ class ExtModel:
         if name.startswith("voluptuous.") or name.startswith("vol."):
             short = name.split(".", 1)[1]
             if short in ("Schema", "All", "Any", "In", "Coerce", "Range", "Object", "Length", "Match", "Optional", "Required"):
-                return ExtObj(f"vol.{short}@{site}", "vol.validator", args, kwargs)
+                return ExtObj(f"vol.{short}@{site}", f"vol.{short}", args, kwargs)
             if short.startswith("humanize"):
                 return Unknown("str", label=f"humanize:{site}")
         if name == "builtins.open":
@@ -590,6 +590,8 @@ class ExtModel:
         k = args[0]
         default = args[1] if len(args) > 1 else Const(None)
         if isinstance(recv, DictV):
+            if isinstance(k, EnumMemV) and len(k.names) == 1:
+                k = Const(interp.enum_value(k.enum, k.version, k.names[0]))
             if isinstance(k, Const) and k.value in recv.entries:
                 return [("val", st, recv.entries[k.value])]
             if recv.closed and isinstance(k, Const):
